@@ -1,4 +1,5 @@
 import GoomVerif.Lemmas.C14L
+import GoomVerif.Lemmas.C14HL
 /-!
 # C14 — a patch touches only the target's entry bytes and leaves pages read+execute
 
@@ -9,8 +10,11 @@ crossings) and **every** address-space state `s`.  `Gen.Page.PageStart` (inside 
 
 `NoWrap a n := a.toNat + n ≤ 2^64 - 4096` (the write stays below the last page of the address space) is the explicit
 hypothesis under which `addr+uintptr(length)` and `p += pageSize` do not wrap; `pages_wrapped_empty` says what the code
-does otherwise (it changes no protection, so the copy would fault).  `MappedAll s (pages a n)` is "the kernel does not
-refuse `mprotect`"; when it does, `writeTo` takes the fall-back of `mwrite_prot.go`, which is outside this model.
+does otherwise (it changes no protection, so the copy would fault).  `MappedAll s (pages a n)` is "every visited page is
+mapped"; `s.denyWX = false` is "the kernel has no W^X policy".  With a W^X policy the RWX request is refused and `writeTo`
+takes the fall-back of `mwrite_prot.go`, modelled as `Mem.fallbackWrite`: it is correct for bytes and final protections
+(`fallback_write_correct`) but goes through rw-, i.e. drops x for the duration — the full statement `XKeptOnEveryPath` is
+false there (`Findings/C14Fallback.lean`), `x_kept_finally_partial` carries the hypothesis.
 -/
 namespace C14
 open Mem C14L
@@ -64,19 +68,15 @@ theorem pages_wrapped_empty (a : Addr) (n : Nat) (hn : n < 2^63) (hw : 2^64 ≤ 
 theorem write_frame (a : Addr) (data : List Byte) (s : State) (q : Addr)
     (hq : ∀ j, j < data.length → q ≠ a + BitVec.ofNat 64 j) :
     (writeTo a data s).1.mem q = s.mem q := by
-  rw [writeTo_state]
-  apply run_frame
-  intro hst
-  obtain ⟨j, hj, e⟩ := script_stores a data q hst
-  exact hq j hj e
+  exact writeTo_frame a data s q hq
 
 /-- **intact + success**: when `mprotect` is not refused the write succeeds and every byte `data[j]` is at `a+j`
     afterwards, across any number of page boundaries. -/
 theorem write_intact (a : Addr) (data : List Byte) (s : State) (h : NoWrap a data.length)
-    (hm : MappedAll s (pages a data.length)) :
+    (hm : MappedAll s (pages a data.length)) (hd : s.denyWX = false) :
     (writeTo a data s).2 = Outcome.ok ∧
     ∀ j (hj : j < data.length), (writeTo a data s).1.mem (a + BitVec.ofNat 64 j) = data[j] := by
-  obtain ⟨s', hw, _, hval⟩ := writeTo_spec a data s h hm
+  obtain ⟨s', hw, _, hval⟩ := writeTo_spec a data s h hm hd
   rw [hw]
   exact ⟨rfl, hval⟩
 
@@ -85,7 +85,7 @@ theorem write_intact (a : Addr) (data : List Byte) (s : State) (h : NoWrap a dat
     extra hypothesis of `no_page_left_writable`, "no page writable before", holds in this state too) -/
 example : ∃ s : State, NoWrap 0x401ffa#64 (List.replicate 5000 (0x90#8)).length ∧
     MappedAll s (pages 0x401ffa#64 (List.replicate 5000 (0x90#8)).length) :=
-  ⟨⟨fun _ => 0, fun _ => some RX⟩, by simp only [List.length_replicate]; unfold NoWrap; decide, fun _ _ => rfl⟩
+  ⟨{ mem := fun _ => 0, perm := fun _ => some RX }, by simp only [List.length_replicate]; unfold NoWrap; decide, fun _ _ => rfl⟩
 
 /-- **length 0 is a no-op on memory** (unconditional).  On protections it is *not* quite nothing: see `pages_zero`. -/
 theorem write_empty_mem (a : Addr) (s : State) : (writeTo a [] s).1.mem = s.mem := by
@@ -113,43 +113,132 @@ theorem x_never_dropped (a : Addr) (data : List Byte) (s : State) (k : Nat) (p :
     Exec (run s ((script a data).take k)).1 p :=
   run_exec _ s p (xkeeping_take _ k (script_xkeeping a data)) hx
 
-/-- the states of the procedural `writeTo` are exactly the states of that script (it stops at the first failing step) -/
-theorem writeTo_runs_script (a : Addr) (data : List Byte) (s : State) :
+/-- when the RWX request is not refused, the states of the procedural `writeTo` are exactly the states of that script
+    (it stops at the first failing step) -/
+theorem writeTo_runs_script (a : Addr) (data : List Byte) (s : State)
+    (h1 : (run s (protScript a data.length RWX)).2 = none) :
     (writeTo a data s).1 = (run s (script a data)).1 :=
-  writeTo_state a data s
+  writeTo_state a data s h1
 
-/-- … hence also in the final state of `WriteTo`, on every path -/
-theorem x_kept_finally (a : Addr) (data : List Byte) (s : State) (p : Addr) (hx : Exec s p) :
+/-- the full-strength clause "pages remain executable throughout", on every path of `WriteTo`: FALSE on the fall-back
+    path (see `Findings/C14Fallback.lean`); kept visible here. -/
+def XKeptOnEveryPath : Prop :=
+  ∀ (a : Addr) (data : List Byte) (s : State) (p : Addr), Exec s p →
+    (∀ k, Exec (run s ((script a data).take k)).1 p) ∧
+    ((run s (protScript a data.length RWX)).2 ≠ none →
+      ∀ k, Exec (run (run s (protScript a data.length RWX)).1 ((fallbackScript a data).take k)).1 p)
+
+/-- … hence also in the final state of `WriteTo`, on every path on which the RWX request was not refused (including all
+    later failures).  Excluded: the fall-back `mwrite_prot.go:3008`, which requests rw- . -/
+theorem x_kept_finally_partial (a : Addr) (data : List Byte) (s : State) (p : Addr) (hx : Exec s p)
+    (h1 : (run s (protScript a data.length RWX)).2 = none) :
     Exec (writeTo a data s).1 p := by
-  rw [writeTo_state]
+  rw [writeTo_state a data s h1]
   exact run_exec _ s p (script_xkeeping a data) hx
+
+/-- the hypothesis of `x_kept_finally_partial` holds whenever the visited pages are mapped and there is no W^X policy -/
+theorem rwx_not_refused (a : Addr) (data : List Byte) (s : State)
+    (hm : MappedAll s (pages a data.length)) (hd : s.denyWX = false) :
+    (run s (protScript a data.length RWX)).2 = none := by
+  simp only [protScript]
+  rw [run_prot RWX _ s hm (by simp [Allowed, hd])]
+
+/-- **the fall-back is correct for bytes and final protections**: with a W^X policy (every RWX request refused) and all
+    visited pages mapped, `WriteTo` still returns nil, the data is intact, and exactly the visited pages end r-x. -/
+theorem fallback_write_correct (a : Addr) (data : List Byte) (s : State) (h : NoWrap a data.length)
+    (hm : MappedAll s (pages a data.length)) (hd : s.denyWX = true) :
+    (writeTo a data s).2.returned = true ∧
+    (∀ j (hj : j < data.length), (writeTo a data s).1.mem (a + BitVec.ofNat 64 j) = data[j]) ∧
+    ∀ q, (writeTo a data s).1.perm q = if q ∈ pages a data.length then some RX else s.perm q := by
+  cases hp : pages a data.length with
+  | nil =>
+    -- nothing to protect (empty write at an aligned address): the first pass is empty and succeeds
+    have hw : writeTo a data s = (writeTo a data s) := rfl
+    have hlen : data.length = 0 := by
+      cases hdl : data.length with
+      | zero => rfl
+      | succ n =>
+        have := C14L.pages_cover a data.length 0 h (by omega)
+        rw [hp] at this
+        cases this
+    have hnil : data = [] := List.eq_nil_of_length_eq_zero hlen
+    subst hnil
+    simp only [writeTo, protScript, copyScript, copyFrom, List.length_nil] at hp ⊢
+    simp only [hp, List.map_nil, run, Outcome.returned, List.not_mem_nil, if_false, true_and]
+    exact ⟨fun j hj => absurd hj (Nat.not_lt_zero _), fun _ => True.intro⟩
+  | cons p0 rest =>
+    have h1 := run_rwx_denied a data.length s hd p0 rest hp hm
+    obtain ⟨s', hf, hperm, hval⟩ := fallback_spec a data (Err.eacces p0) s h hm
+    have hw : writeTo a data s = (s', Outcome.okFallback (Err.eacces p0)) := by
+      simp only [writeTo, h1, hf]
+    rw [hw]
+    refine ⟨rfl, hval, ?_⟩
+    intro q
+    simp only [hperm, setMany, hp]
+
+/-- a state with a W^X policy in which the hypotheses of `fallback_write_correct` hold (13 bytes across a page end) -/
+example : ∃ s : State, s.denyWX = true ∧ NoWrap 0x401ffa#64 13 ∧ MappedAll s (pages 0x401ffa#64 13) :=
+  ⟨{ mem := fun _ => 0, perm := fun _ => some RX, denyWX := true }, rfl, by unfold NoWrap; decide, fun _ _ => rfl⟩
 
 /-- **final protections**: exactly the visited pages end as r-x, every other page keeps its protection. -/
 theorem final_perms (a : Addr) (data : List Byte) (s : State) (h : NoWrap a data.length)
-    (hm : MappedAll s (pages a data.length)) (q : Addr) :
+    (hm : MappedAll s (pages a data.length)) (hd : s.denyWX = false) (q : Addr) :
     (writeTo a data s).1.perm q = if q ∈ pages a data.length then some RX else s.perm q := by
-  obtain ⟨s', hw, hperm, _⟩ := writeTo_spec a data s h hm
+  obtain ⟨s', hw, hperm, _⟩ := writeTo_spec a data s h hm hd
   rw [hw]
   simp only [hperm, setMany]
 
 /-- **no page left writable** if none was before. -/
 theorem no_page_left_writable (a : Addr) (data : List Byte) (s : State) (h : NoWrap a data.length)
-    (hm : MappedAll s (pages a data.length))
+    (hm : MappedAll s (pages a data.length)) (hd : s.denyWX = false)
     (hnw : ∀ p pr, s.perm p = some pr → pr.w = false) :
     ∀ p pr, (writeTo a data s).1.perm p = some pr → pr.w = false := by
   intro p pr hp
-  rw [final_perms a data s h hm p] at hp
+  rw [final_perms a data s h hm hd p] at hp
   split at hp
   · cases hp; rfl
   · exact hnw p pr hp
 
+/-- **no page of the program image is left writable** — the clause as the property states it, for a real process whose
+    heap/stack/.data are of course writable: for ANY set `img` of pages (the text segment, the whole image, …) on which no
+    page was writable before, none is writable afterwards; pages outside `img` are not constrained.  Holds with and
+    without a W^X policy (normal path and fall-back). -/
+theorem no_image_page_left_writable (a : Addr) (data : List Byte) (s : State) (img : Addr → Prop)
+    (h : NoWrap a data.length) (hm : MappedAll s (pages a data.length))
+    (hnw : ∀ p pr, img p → s.perm p = some pr → pr.w = false) :
+    ∀ p pr, img p → (writeTo a data s).1.perm p = some pr → pr.w = false := by
+  intro p pr hi hp
+  have hfin : (writeTo a data s).1.perm p = if p ∈ pages a data.length then some RX else s.perm p := by
+    cases hd : s.denyWX with
+    | false => exact final_perms a data s h hm hd p
+    | true => exact (fallback_write_correct a data s h hm hd).2.2 p
+  rw [hfin] at hp
+  split at hp
+  · cases hp; rfl
+  · exact hnw p pr hi hp
+
+/-- non-vacuity: a process with a writable heap page (outside `img`) and an r-x text page (inside), writing 13 bytes to
+    the text page -/
+example : ∃ (s : State) (img : Addr → Prop), (∃ p pr, s.perm p = some pr ∧ pr.w = true) ∧ img 0x401000#64 ∧
+    NoWrap 0x401100#64 13 ∧ MappedAll s (pages 0x401100#64 13) ∧
+    (∀ p pr, img p → s.perm p = some pr → pr.w = false) :=
+  ⟨{ mem := fun _ => 0, perm := fun p => if p = 0x401000#64 then some RX else some RW }, fun p => p = 0x401000#64,
+    ⟨0xc000000000#64, RW, by decide, rfl⟩, rfl, by unfold NoWrap; decide, fun _ _ => by
+      show (if _ = _ then some RX else some RW).isSome = true
+      split <;> rfl,
+    fun p pr hi hp => by
+      have hi' : p = 0x401000#64 := hi
+      subst hi'
+      simp only [if_true] at hp
+      cases hp; rfl⟩
+
 /-- **the copy never faults**: at copy time (after the first `mprotect` pass) every byte to be written lies in a page
     that is RWX. -/
 theorem copy_never_faults (a : Addr) (data : List Byte) (s : State) (h : NoWrap a data.length)
-    (hm : MappedAll s (pages a data.length)) (j : Nat) (hj : j < data.length) :
+    (hm : MappedAll s (pages a data.length)) (hd : s.denyWX = false) (j : Nat) (hj : j < data.length) :
     (run s (protScript a data.length RWX)).1.perm (pageOf (a + BitVec.ofNat 64 j)) = some RWX := by
   simp only [protScript]
-  rw [run_prot RWX _ s hm]
+  rw [run_prot RWX _ s hm (by simp [Allowed, hd])]
   simp only [setMany, C14L.pages_cover a data.length j h hj, if_true]
 
 /-! ## patch layer (jumpdata.go, guard.go, fix_origin_amd64.go) -/
@@ -207,7 +296,11 @@ theorem install_touches_only (origin to : Addr) (funcSize : Nat) (tramp : Option
           exact ht t tsize fix rfl ⟨j, by omega, e⟩
         rcases hw : writeTo t fix s with ⟨s1, o⟩
         rw [hw] at hfix
-        cases o <;> first | exact hfix | (show (writeTo origin _ s1).1.mem q = s.mem q; rw [hentry s1]; exact hfix)
+        simp only
+        split
+        · show (writeTo origin _ s1).1.mem q = s.mem q
+          rw [hentry s1]; exact hfix
+        · exact hfix
       · simp only [hacc]
         rfl
 
@@ -224,14 +317,18 @@ theorem unpatch_touches_only (origin : Addr) (originBytes : List Byte) (s : Stat
 theorem unpatch_restores (origin to : Addr) (funcSize : Nat) (s : State) (originBytes : List Byte)
     (hsz : 13 < funcSize) (hlen : originBytes.length = 13)
     (hob : ∀ j (hj : j < originBytes.length), originBytes[j] = s.mem (origin + BitVec.ofNat 64 j))
-    (h : NoWrap origin 13) (hm : MappedAll s (pages origin 13)) :
+    (h : NoWrap origin 13) (hm : MappedAll s (pages origin 13)) (hd : s.denyWX = false) :
     ∃ s1, install origin to funcSize none s = (s1, InstallRes.done Outcome.ok) ∧
       (unpatch origin originBytes s1).2 = Outcome.ok ∧ (unpatch origin originBytes s1).1.mem = s.mem := by
   have hnot : ¬ funcSize ≤ 13 := by omega
   have hjl := jump_len origin to
   have hN : NoWrap origin (Gen.Amd64.jmpToFunctionValue origin to).length := by rw [hjl]; exact h
   have hM : MappedAll s (pages origin (Gen.Amd64.jmpToFunctionValue origin to).length) := by rw [hjl]; exact hm
-  obtain ⟨s1, hw, hperm, _⟩ := writeTo_spec origin (Gen.Amd64.jmpToFunctionValue origin to) s hN hM
+  obtain ⟨s1, hw, hperm, _⟩ := writeTo_spec origin (Gen.Amd64.jmpToFunctionValue origin to) s hN hM hd
+  have hd1 : s1.denyWX = false := by
+    have := writeTo_deny origin (Gen.Amd64.jmpToFunctionValue origin to) s
+    rw [hw] at this
+    rw [this, hd]
   refine ⟨s1, ?_, ?_⟩
   · simp only [install, genJumpData, jump_len, ge_iff_le, hnot, if_false, hw]
   · have hN2 : NoWrap origin originBytes.length := by rw [hlen]; exact h
@@ -240,7 +337,7 @@ theorem unpatch_restores (origin to : Addr) (funcSize : Nat) (s : State) (origin
       rw [hlen] at hp
       rw [hperm, hjl]
       simp only [setMany, hp, if_true, Option.isSome_some]
-    have hi := write_intact origin originBytes s1 hN2 hM2
+    have hi := write_intact origin originBytes s1 hN2 hM2 hd1
     refine ⟨hi.1, ?_⟩
     funext q
     by_cases hq : ∃ j, j < originBytes.length ∧ q = origin + BitVec.ofNat 64 j
@@ -261,14 +358,14 @@ theorem unpatch_restores (origin to : Addr) (funcSize : Nat) (s : State) (origin
 /-- the same for the bytes goom really saves, `RawRead(origin, len(jumpData))` (patch.go:123): they are 13 bytes, so
     `Unpatch` writes exactly the entry jump's extent (`unpatch_touches_only`) and restores memory. -/
 theorem unpatch_restores_saved (origin to : Addr) (funcSize : Nat) (s : State) (hsz : 13 < funcSize)
-    (h : NoWrap origin 13) (hm : MappedAll s (pages origin 13)) :
+    (h : NoWrap origin 13) (hm : MappedAll s (pages origin 13)) (hd : s.denyWX = false) :
     (savedOriginBytes s origin to).length = 13 ∧
     ∃ s1, install origin to funcSize none s = (s1, InstallRes.done Outcome.ok) ∧
       (unpatch origin (savedOriginBytes s origin to) s1).2 = Outcome.ok ∧
       (unpatch origin (savedOriginBytes s origin to) s1).1.mem = s.mem := by
   have hlen : (savedOriginBytes s origin to).length = 13 := by
     simp only [savedOriginBytes, readBytes, List.length_map, List.length_range, jump_len]
-  refine ⟨hlen, unpatch_restores origin to funcSize s _ hsz hlen ?_ h hm⟩
+  refine ⟨hlen, unpatch_restores origin to funcSize s _ hsz hlen ?_ h hm hd⟩
   intro j hj
   simp only [savedOriginBytes, readBytes, List.getElem_map, List.getElem_range]
 
@@ -276,7 +373,7 @@ theorem unpatch_restores_saved (origin to : Addr) (funcSize : Nat) (s : State) (
 example : ∃ (s : State) (ob : List Byte), ob.length = 13 ∧
     (∀ j (hj : j < ob.length), ob[j] = s.mem (0x401fe0#64 + BitVec.ofNat 64 j)) ∧
     NoWrap 0x401fe0#64 13 ∧ MappedAll s (pages 0x401fe0#64 13) :=
-  ⟨⟨fun _ => 0xcc#8, fun _ => some RX⟩, List.replicate 13 (0xcc#8), by simp,
+  ⟨{ mem := fun _ => 0xcc#8, perm := fun _ => some RX }, List.replicate 13 (0xcc#8), by simp,
     fun j hj => by simp only [List.getElem_replicate], by unfold NoWrap; decide, fun _ _ => rfl⟩
 
 /-- the hypotheses of `install_touches_only` are satisfiable: a 32-byte function at 0x401fe0 with a neighbour starting
@@ -286,5 +383,55 @@ example : ¬ InRange 0x401fe0#64 (min 13 32) 0x402000#64 := by
   have := congrArg BitVec.toNat e
   simp only [BitVec.toNat_add, BitVec.toNat_ofNat] at this
   omega
+
+/-! ## histories: any sequence of Patch / Apply / Unpatch / Restore / Unpatch(fn) / UnpatchAll over several targets,
+      with the environment unmapping pages in between (Model/MemHist.lean)
+
+`LOK L`: every 13-byte entry lies in one page (function entries are 16/32-byte aligned).  `GOK L h`: the guards the caller
+holds belong to their targets and hold 13+13 bytes — true of the empty initial state and preserved (`hist_guards`). -/
+
+open C14HL in
+/-- **only entry bytes, after any history**: whatever sequence of installs, removals, re-installs, `Restore`s and
+    `UnpatchAll`s ran — including operations that panicked because a target's memory had been unmapped — a byte outside
+    the 13 entry bytes of the targets is unchanged. -/
+theorem hist_frame (L : Layout) (hL : LOK L) (h : HState) (hG : GOK L h) (ops : List HOp) (q : Addr)
+    (hq : ∀ i j, j < 13 → q ≠ L.org i + BitVec.ofNat 64 j) : (hrun L h ops).m.mem q = h.m.mem q :=
+  (hrun_rel L hL ops h hG).1.2 q hq
+
+open C14HL in
+/-- **no image page left writable, after any history**: for any set `img` of pages none of which was writable before,
+    none is writable afterwards — on every path, also when an operation in the middle (e.g. `UnpatchAll` reaching a target
+    in unmapped memory) panicked, with or without a W^X policy.  Every page ends with the protection it had, or r-x, or
+    unmapped by the environment. -/
+theorem hist_no_image_page_left_writable (L : Layout) (hL : LOK L) (h : HState) (hG : GOK L h) (ops : List HOp)
+    (img : Addr → Prop) (hnw : ∀ p pr, img p → h.m.perm p = some pr → pr.w = false) :
+    ∀ p pr, img p → (hrun L h ops).m.perm p = some pr → pr.w = false := by
+  intro p pr hi hp
+  rcases (hrun_rel L hL ops h hG).1.1 p with e | e | e
+  · rw [e] at hp; exact hnw p pr hi hp
+  · rw [e] at hp; cases hp; rfl
+  · rw [e] at hp; cases hp
+
+open C14HL in
+/-- **the saved bytes are always 13**: after any history every guard still belongs to its target and holds 13 original and
+    13 jump bytes, so no later `Unpatch`/`Restore` can write beyond the entry jump. -/
+theorem hist_guards (L : Layout) (hL : LOK L) (h : HState) (hG : GOK L h) (ops : List HOp) : GOK L (hrun L h ops) :=
+  (hrun_rel L hL ops h hG).2
+
+/-- non-vacuity: two targets 32 bytes apart in a text page, a third in separately mapped code; the empty initial
+    state; a history that patches all three, applies them, loses the third's memory and calls `UnpatchAll` -/
+example : ∃ (L : Layout) (h : HState) (ops : List HOp), C14HL.LOK L ∧ C14HL.GOK L h ∧ ops.length = 8 :=
+  ⟨{ org := fun i => if i = 0 then 0x401fc0#64 else if i = 1 then 0x401fe0#64 else 0x7f0000000000#64, fsz := fun _ => 64,
+     to := 0xc000001000#64 },
+   { m := { mem := fun _ => 0xcc#8, perm := fun _ => some RX }, slots := fun _ => none, table := [] },
+   [.patch 0, .apply 0, .patch 1, .apply 1, .patch 2, .apply 2, .unmap 0x7f0000000000#64, .unpatchAll],
+   by
+     intro i
+     by_cases h0 : i = 0
+     · subst h0; exact ⟨by unfold C14L.NoWrap; decide, 0x401000#64, by decide⟩
+     · by_cases h1 : i = 1
+       · subst h1; exact ⟨by unfold C14L.NoWrap; decide, 0x401000#64, by decide⟩
+       · simp only [h0, h1, if_false]; exact ⟨by unfold C14L.NoWrap; decide, 0x7f0000000000#64, by decide⟩,
+   (fun _ _ hs => by simp at hs), rfl⟩
 
 end C14
